@@ -1,17 +1,226 @@
-"""Counter-model replay (filled in below)."""
-import os, json
+"""Counter-model -> replay scenario (worker side) and replay execution (main process)."""
+from __future__ import annotations
+import json, os, subprocess, sys
+from fractions import Fraction
+import z3
+from . import sym, spec
+from .values import *
 from .engine import VERIF
+from .loader import REPO_SRC
+
+
+# ---------------------------------------------------------------------------- model evaluation
+
+def mval(model, term):
+    v = model.eval(term, model_completion=True)
+    if z3.is_int_value(v):
+        return v.as_long()
+    if z3.is_rational_value(v):
+        fr = v.as_fraction()
+        return fr.numerator if fr.denominator == 1 else [fr.numerator, fr.denominator]
+    if z3.is_algebraic_value(v):
+        return ["approx", v.approx(30).as_decimal(30)]
+    if z3.is_true(v):
+        return True
+    if z3.is_false(v):
+        return False
+    return str(v)
+
+
+def mnum(model, term):
+    v = mval(model, term)
+    if isinstance(v, list):
+        if v[0] == "approx":
+            return float(str(v[1]).rstrip("?"))
+        return Fraction(v[0], v[1])
+    if isinstance(v, bool) or not isinstance(v, int):
+        return None
+    return Fraction(v)
+
+
+def jnum(fr):
+    if isinstance(fr, float):
+        return fr
+    if fr.denominator == 1:
+        return int(fr.numerator)
+    return [fr.numerator, fr.denominator]
+
+
+class Concretizer:
+    def __init__(self, I, model, pt, names):
+        self.I = I
+        self.m = model
+        self.pt = pt
+        self.name_map = {}
+        self.names = list(names)
+        self.ok = True
+        self.notes = []
+        for i, n in enumerate(self.names):
+            self.name_str(n, hint=str(n) if z3.is_const(n) and n.decl().kind() == z3.Z3_OP_UNINTERPRETED else None)
+
+    def name_str(self, term, hint=None):
+        lit = sym.literal_of_name(term)
+        v = self.m.eval(term, model_completion=True)
+        key = str(v)
+        if key in self.name_map:
+            return self.name_map[key]
+        if lit is not None:
+            s = lit
+        else:
+            base = hint if hint and hint.isidentifier() else f"v{len(self.name_map)}"
+            s = base
+            while s in self.name_map.values():
+                s = s + "_"
+        self.name_map[key] = s
+        return s
+
+    def point(self):
+        out = {}
+        if self.pt is None:
+            return out
+        for n in list(self.names):
+            if mval(self.m, spec.point_has(self.I, self.pt, n)) is True:
+                v = mnum(self.m, spec.point_val(self.I, self.pt, n))
+                out[self.name_str(n)] = jnum(v if v is not None else Fraction(1))
+        return out
+
+    def number(self, v):
+        if isinstance(v, SNum):
+            fr = mnum(self.m, v.term)
+            if fr is None:
+                self.ok = False
+                return 0
+            pyint = v.pyint if isinstance(v.pyint, bool) else (mval(self.m, v.pyint) is True)
+            if isinstance(fr, float):
+                return fr
+            if pyint and fr.denominator == 1:
+                return int(fr)
+            return jnum(fr) if fr.denominator != 1 else float(fr)
+        return v
+
+    def tree(self, o, x=None):
+        if o.cls is not None and o.kind != "foreign" and "_variable_names" in o.fields or (o.cls is not None and o.fields):
+            c = o.cls.name
+            f = o.fields
+            if c == "Constant":
+                return ["Constant", self.number(f["value"])]
+            if c == "Variable":
+                nm = f["name"]
+                return ["Variable", nm if isinstance(nm, str) else self.name_str(nm.term)]
+            kids = [self.tree(ch, x) for ch in spec.children(o)]
+            if c in ("NthPower", "NthRoot", "Exponential", "Logarithm"):
+                return [c] + kids + [self.number(f["_parameter"])]
+            return [c] + kids
+        return self.leaf(o, x)
+
+    def leaf(self, o, x):
+        """A concrete tree with the child's denotation in the model: defined or not, value,
+        partial with respect to x, coordinate missing or not."""
+        I, m, pt = self.I, self.m, self.pt
+        if pt is None:
+            return ["Constant", 1]
+        d = spec.den(I, o, pt)
+        D = mval(m, d.D) is True
+        S = mval(m, spec.supplies(I, o, pt)) is True
+        V = mnum(m, d.V)
+        if V is None:
+            V = Fraction(1)
+        pres = self.point()
+        xs = self.name_str(x) if x is not None else None
+        dv = mnum(m, d.dV(x)) if x is not None else Fraction(0)
+        if dv is None:
+            dv = Fraction(0)
+        if not S:
+            self.notes.append(f"{o.name}: coordinate missing")
+            return ["Add", ["Constant", jnum(V) if not isinstance(V, float) else V], ["Variable", "zz_missing"]]
+        if not D:
+            if xs in pres:
+                x0 = pres[xs]
+                return ["Reciprocal", ["Minus", ["Variable", xs], ["Constant", x0]]]
+            return ["Reciprocal", ["Constant", 0]]
+        in_vars = x is not None and mval(m, sym.member(x, spec.vars_of(I, o))) is True
+        if dv == 0 and not in_vars:
+            return ["Constant", self._c(V)]
+        if xs not in pres:
+            # the child mentions x although the point lacks it: contradiction with S
+            self.ok = False
+            return ["Constant", self._c(V)]
+        x0 = Fraction(*pres[xs]) if isinstance(pres[xs], list) else Fraction(pres[xs])
+        if isinstance(V, float) or isinstance(dv, float):
+            V, dv, x0 = float(V), float(dv), float(x0)
+        return ["Add", ["Multiply", ["Constant", self._c(dv)], ["Variable", xs]], ["Constant", self._c(V - dv * x0)]]
+
+    def _c(self, fr):
+        if isinstance(fr, float):
+            return fr
+        return jnum(fr) if fr.denominator != 1 else int(fr)
+
+
+def build_scenario(I, res, model):
+    """Uses the replay descriptor the family left in I.ghost['replay']."""
+    rp = I.ghost.get("replay")
+    if rp is None or model is None:
+        return None
+    try:
+        names = list(I.ghost.get("ambient_names", []))
+        x = rp.get("x")
+        if x is not None and all(x is not n for n in names):
+            names.append(x)
+        pt = rp.get("pt")
+        cz = Concretizer(I, model, pt, names)
+        sc = {"kind": rp["kind"]}
+        if rp.get("root") is not None:
+            sc["tree"] = cz.tree(rp["root"], x)
+        sc["point"] = cz.point()
+        if x is not None:
+            sc["x"] = cz.name_str(x)
+        if rp.get("number") is not None:
+            sc["number"] = cz.number(rp["number"])
+        for k, v in rp.get("extra", {}).items():
+            sc[k] = v(cz) if callable(v) else v
+        sc["notes"] = cz.notes
+        if not cz.ok:
+            sc["inconsistent_model"] = True
+        return sc
+    except Exception as e:          # a scenario is best effort; the obligation failure stands
+        return {"kind": "none", "error": f"{type(e).__name__}: {e}"}
+
+
+# ---------------------------------------------------------------------------- main-process side
+
+def _safe(name):
+    out = []
+    for ch in name:
+        out.append(ch if ch.isalnum() or ch in "._-" else "_")
+    return "".join(out)
 
 
 def write_and_run(prop, obl, prog):
     os.makedirs(os.path.join(VERIF, "replays"), exist_ok=True)
-    safe = obl["name"].replace("/", "__").replace("[", "_").replace("]", "_").replace("@", "_at_").replace("(", "_").replace(")", "_").replace("=", "")
-    path = os.path.join(VERIF, "replays", f"{prop}__{safe}.json")
+    path = os.path.join(VERIF, "replays", f"{prop}__{_safe(obl['name'])}.json")
+    doc = {"property": prop, "obligation": {k: v for k, v in obl.items() if k != "scenario"},
+           "scenario": obl.get("scenario"),
+           "how_to_run": f"cd /verif && ./check replay {path}"}
     with open(path, "w") as fh:
-        json.dump({"property": prop, "obligation": obl}, fh, indent=1, default=str)
-    return path, False
+        json.dump(doc, fh, indent=1, default=str)
+    code, out = _run(path)
+    with open(path[:-5] + ".out", "w") as fh:
+        fh.write(out)
+    return path, code == 1
+
+
+def _run(path):
+    env = dict(os.environ)
+    env["PYTHONPATH"] = REPO_SRC + os.pathsep + VERIF
+    try:
+        p = subprocess.run(["python3-vt", os.path.join(VERIF, "pyvc", "replaylib.py"), path],
+                           capture_output=True, text=True, env=env, timeout=120)
+        return p.returncode, p.stdout + p.stderr
+    except subprocess.TimeoutExpired:
+        return 0, "replay timed out"
 
 
 def run_file(path):
-    print(open(path).read())
-    return 0
+    code, out = _run(path)
+    print(out)
+    return code
